@@ -11,13 +11,22 @@ The deciding oracle is the lattice map-back of pbt/oracles/crystal_match.py (num
 result, taken back through the returned rotation, must coincide modulo the original lattice with exactly one
 original atom carrying the same type / tag / vector property; every original atom must be represented
 |det| times; no two result atoms may coincide modulo the result lattice.
+
+Every clause judges the call on a unit cell handed over in one of the documented INPUT FORMS (see "input forms":
+lists / tuples, F-ordered, strided, read-only, float32 / float16 and - for whole-number cells - integer arrays and
+lists of Python ints; Box through vects=, avect=..., the setters or Box.set; System plain, scale=True, safecopy=True)
+and after a HISTORY on the same object / in the same process (see "histories": derived quantities read, the origin
+alone moved through box_set(scale=True/False), Box.set and the origin setter, the cell replaced keeping the relative
+coordinates, positions rewritten or shifted through every public setter, the operations of this property called
+before with other arguments, the System re-built from its parts, another System operated on).  The unit cell the
+result is compared with is an independent numpy model carried through the same history.
 """
 import itertools
 
 import numpy as np
 from hypothesis import strategies as st
 
-from ..core import Clause, Violation, require
+from ..core import Clause, Violation, require, HarnessError
 from .. import gens
 from ..oracles import crystal_match as cm
 
@@ -29,6 +38,20 @@ RULE = ("unit cells of all seven crystal families (lattice parameters 2-22 A, op
         "entries in [-3,3] (20 %: [-4,4]), det != 0, |det| <= 24, both signs, given as list / int array / float array, "
         "3x4 Miller-Bravais rows for hexagonal cells.  centering: conventional cells decorated with the centering "
         "translations of p,a,b,c,i,f,t1,t2 in a family that admits the setting, and arbitrary cells taken as primitive. "
+        "One case in ten (supersize, rotate) is a whole-number cell (cubic / tetragonal / orthorhombic, lattice "
+        "parameters 4, 8, 12, coordinates in quarters, integer origin) handed over as integer arrays or lists of ints.  "
+        "Input forms (two cases in three): positions as list / F-ordered / strided / read-only / float32 / float16 "
+        "arrays (reduced precision: the crystal of the stored values; not for centering, not for the identity of rotate), "
+        "Box from lists / tuples / avect,bvect,cvect / F-ordered / read-only arrays / setters / Box.set, System plain, "
+        "scale=True or safecopy=True; uvws also as tuples, int32, F-ordered, strided, read-only arrays and lists of numpy "
+        "scalars; multipliers also numpy int32 and tuples of numpy ints; rotate with the default tol ladder written out as "
+        "list / tuple / array and without return_transform; conversions through System.dump and atomman.dump.  "
+        "Histories (3 cases in 8, 1-3 operations before the judged call, mirrored in a numpy model): reads of derived "
+        "quantities, origin alone changed by a non-lattice vector (box_set scale=True; box_set / Box.set / setter followed "
+        "by an in-place shift of the atoms or by wrap), cell scaled / rigidly rotated at fixed relative coordinates, "
+        "positions rewritten or rigidly shifted through atoms_prop(scale=True/False), view, attribute, in place, earlier "
+        "supersize / rotate / wrap / normalize / primitive_to_conventional calls, System rebuilt (deepcopy, from parts, "
+        "from scaled atoms, new Box, safecopy), another System operated on.  "
         "Non-trivial: supersize - product > 1 with a negative or two-sided entry; rotate - matrix is not a signed "
         "permutation; refusal - the refused input differs from a valid one in a single row/entry; centering - "
         "setting other than p")
@@ -38,11 +61,21 @@ ASSUMPTIONS = ["numpy linear algebra is correct",
                "a result is accepted if it maps back either in absolute coordinates (T^t r') or box-relative "
                "(T^t (r'-o') + o), the same reading for all atoms of a case",
                "AssertionError('N atoms found, M expected') from conventional_to_primitive is the refusal documented "
-               "in its Raises section (rate-guarded)"]
+               "in its Raises section (rate-guarded)",
+               "Atoms shares the caller's position array unless safecopy=True (documented): read-only and reduced-precision "
+               "position arrays are only combined with histories that write no position, and never with System(scale=True)",
+               "a float32 / float16 position array defines the crystal of its stored (rounded) values; the identity of rotate "
+               "(documented no-rotation shortcut: deep copy + in-place wrap) is only as precise as that dtype and is judged "
+               "with float64 positions only",
+               "supersize / rotate / the conversions return new systems: the system they are called on is compared with its "
+               "snapshot afterwards"]
 LEVEL_TEXT = ("Random unit cells of every crystal family with face / rational / generic / near-face atoms, all multiplier "
               "forms up to 60 replicas, integer re-orientation matrices up to index 4 and |det| 24 of both handedness "
               "(3x4 for hexagonal), all eight centering settings in both conversion directions; each result is mapped "
-              "back atom by atom onto the original crystal.")
+              "back atom by atom onto the original crystal.  Every call is judged on cells in all documented input forms "
+              "(lists, tuples, integer / float32 / float16 / non-contiguous / read-only arrays, scale=True, safecopy) and after "
+              "1-3 earlier operations on the same object or in the same process (origin / cell / positions changed through "
+              "every public setter, derived quantities read, earlier calls, rebuilds), against a numpy model of the history.")
 TECHNIQUE = "lattice map-back with multiplicity and coincidence counting (independent numpy reference), proper-rotation and LAMMPS-form checks"
 WALL = {'quick': 75, 'thorough': 600}
 
@@ -110,8 +143,12 @@ def dedupe(atoms, minsep=0.04):
 
 def ucell_numbers(u):
     """V (rows), origin, relative coords, types, vec from a unit-cell case dict (numpy only)"""
-    lx, ly, lz, xy, xz, yz = gens.abc_to_lammps(*u['abc'])
-    V = np.array([[lx, 0.0, 0.0], [xy, ly, 0.0], [xz, yz, lz]], dtype=float)
+    if u.get('whole'):
+        # whole-number cells: exactly diagonal (cos(90 deg) is 6e-17 in floating point)
+        V = np.diag([float(x) for x in u['abc'][:3]])
+    else:
+        lx, ly, lz, xy, xz, yz = gens.abc_to_lammps(*u['abc'])
+        V = np.array([[lx, 0.0, 0.0], [xy, ly, 0.0], [xz, yz, lz]], dtype=float)
     if u.get('lh'):
         V[2] = -V[2]
     if u.get('rot'):
@@ -121,37 +158,411 @@ def ucell_numbers(u):
     return V, o, s, [int(t) for t in u['types']], np.array(u['vec'], dtype=float).reshape(-1, 3)
 
 
-def build_system(am, u):
+class Model:
+    """independent numpy model of the unit cell a System is supposed to hold: V (rows), o, relative coordinates s and
+    Cartesian positions pos (= s.V + o, except for reduced-precision position arrays where pos is the stored value)"""
+    __slots__ = ('V', 'o', 's', 'pos')
+
+    def __init__(self, V, o, s):
+        self.V, self.o, self.s = np.array(V, dtype=float), np.array(o, dtype=float), np.array(s, dtype=float)
+        self.refresh()
+
+    def refresh(self):
+        self.pos = self.s @ self.V + self.o
+
+
+# ----------------------------------------------------------------------------- input forms
+#
+# Atoms: "pos : list/ndarray of float"; Box: "array-like object"; System: scale / safecopy flags.  The property is about
+# the crystal, not about how its numbers were handed over, so every documented form must give the same answer.
+#   pos   float     C-contiguous float64 ndarray (the only form judged before the seeded round)
+#         list      nested Python lists
+#         fortran   F-ordered ndarray            strided  every second row of a larger array       readonly  writeable=False
+#         f32, f16  reduced-precision float ndarrays: the crystal is the one of the *stored* (rounded) values
+#         int, intlist   whole-number positions as an integer ndarray / list of Python ints (only for 'whole' cells)
+#   box   vects | list | tuple | avects (avect=,bvect=,cvect=) | fortran | readonly | setters (Box() then .vects/.origin
+#         assigned) | set (Box() then .set(vects=, origin=)) | intlist (whole cells: lists of Python ints)
+#   sys   plain | scaled (Atoms holding relative coordinates + System(scale=True)) | safecopy
+DEFAULT_FORMS = {'pos': 'float', 'box': 'vects', 'sys': 'plain'}
+LOWPREC = ('f32', 'f16')
+INTPOS = ('int', 'intlist')
+
+
+def _form_pos(x, form):
+    if form == 'float':
+        return x.copy()
+    if form == 'list':
+        return x.tolist()
+    if form == 'fortran':
+        return np.asfortranarray(x)
+    if form == 'strided':
+        big = np.full((2 * len(x), 3), 1234.5)
+        big[::2] = x
+        return big[::2]
+    if form == 'readonly':
+        y = x.copy()
+        y.setflags(write=False)
+        return y
+    if form == 'f32':
+        return x.astype(np.float32)
+    if form == 'f16':
+        return x.astype(np.float16)
+    if form in INTPOS:
+        xi = np.rint(x).astype(np.int64)
+        if not np.array_equal(xi.astype(float), x):
+            raise HarnessError('integer position form for positions that are not whole numbers')
+        return xi if form == 'int' else [[int(v) for v in r] for r in xi]
+    raise HarnessError('pos form %r' % (form,))
+
+
+def _form_box(am, V, o, form):
+    if form == 'vects':
+        return am.Box(vects=V.copy(), origin=o.copy())
+    if form == 'list':
+        return am.Box(vects=V.tolist(), origin=o.tolist())
+    if form == 'tuple':
+        return am.Box(vects=tuple(tuple(float(x) for x in r) for r in V), origin=tuple(float(x) for x in o))
+    if form == 'avects':
+        return am.Box(avect=V[0].copy(), bvect=V[1].tolist(), cvect=tuple(V[2].tolist()), origin=o.copy())
+    if form == 'fortran':
+        return am.Box(vects=np.asfortranarray(V), origin=o.copy())
+    if form == 'readonly':
+        W, p = V.copy(), o.copy()
+        W.setflags(write=False)
+        p.setflags(write=False)
+        return am.Box(vects=W, origin=p)
+    if form == 'setters':
+        b = am.Box()
+        b.origin = o.copy()
+        b.vects = V.copy()
+        return b
+    if form == 'set':
+        b = am.Box()
+        b.set(vects=V.copy(), origin=o.copy())
+        return b
+    if form == 'intlist':
+        Vi, oi = np.rint(V).astype(np.int64), np.rint(o).astype(np.int64)
+        if not (np.array_equal(Vi.astype(float), V) and np.array_equal(oi.astype(float), o)):
+            raise HarnessError('integer box form for a box that is not whole-numbered')
+        return am.Box(vects=[[int(v) for v in r] for r in Vi], origin=[int(v) for v in oi])
+    raise HarnessError('box form %r' % (form,))
+
+
+def build_system(am, u, forms=None, labels=None):
+    """-> system, Model.  forms: see above (None: the plain float64 forms)"""
+    forms = dict(DEFAULT_FORMS, **(forms or {}))
     V, o, s, types, vec = ucell_numbers(u)
-    pos = s @ V + o
-    atoms = am.Atoms(atype=np.array(types, dtype=int), pos=pos.copy(),
-                     tag=np.arange(len(s), dtype=int), vec=vec.copy())
-    return am.System(atoms=atoms, box=am.Box(vects=V.copy(), origin=o.copy())), V, o, pos
+    M = Model(V, o, s)
+    pf, bf, sf = forms['pos'], forms['box'], forms['sys']
+    if pf in LOWPREC:
+        # the unit cell is the one of the stored, rounded values; fall back to the next finer type when the rounding
+        # would bring two atoms within 0.01 length units of one another modulo the lattice (float16 resolves 0.03 at 60)
+        for f in ((pf, 'f32', 'float') if pf == 'f16' else (pf, 'float')):
+            if f == 'float':
+                pf = f
+                break
+            q = np.asarray(_form_pos(M.pos, f), dtype=float)
+            if not cm.coincidences(q, V, o, 0.01, max_pairs=1):
+                pf = f
+                M.pos = q
+                M.s = cm.rel_coords(q, V, o)
+                break
+    if pf != 'float' or bf != 'vects' or sf != 'plain':
+        if labels is not None:
+            labels.update({'forms', 'pos_' + pf, 'box_' + bf, 'sys_' + sf})
+    # scale=True converts the positions in the caller's array (shared unless safecopy=True, documented): not for read-only / rounded / integer ones
+    scaled = sf == 'scaled' and pf in ('float', 'list', 'fortran', 'strided')
+    props = dict(atype=np.array(types, dtype=int), tag=np.arange(len(s), dtype=int), vec=vec.copy())
+    atoms = am.Atoms(pos=_form_pos(M.s if scaled else M.pos, pf), **props)
+    box = _form_box(am, V, o, bf)
+    if scaled:
+        system = am.System(atoms=atoms, box=box, scale=True)
+    elif sf == 'safecopy':
+        system = am.System(atoms=atoms, box=box, safecopy=True)
+    else:
+        system = am.System(atoms=atoms, box=box)
+    return system, M
 
 
 def ucell_labels(u):
+    """labels of the generated cell that no history changes"""
     labs = {u['family']}
-    s = np.array(u['atoms'], dtype=float)
     if u.get('rot'):
         labs.add('rigid_rot')
     if u.get('lh'):
         labs.add('lefthanded')
-    orel = np.array(u['orel'], dtype=float)
-    if np.any(np.abs(orel) > 1.0):
-        labs.add('origin_far')
-    elif np.any(orel != 0):
-        labs.add('origin_small')
-    if np.any(s == 0.0):
-        labs.add('onface')
-    if len(s) == 1:
+    if len(u['atoms']) == 1:
         labs.add('natoms1')
-    if len(s) >= 3:
+    if len(u['atoms']) >= 3:
         labs.add('natoms3+')
     if len(set(u['types'])) > 1:
         labs.add('multitype')
     if u.get('nearface'):
         labs.add('nearface')
+    if u.get('whole'):
+        labs.add('whole')
     return labs
+
+
+def model_labels(M, labels):
+    """labels of the cell at the judged call (after the history): where the origin is, atoms exactly on a face"""
+    orel = cm.rel_coords(M.o, M.V)
+    if np.any(np.abs(orel) > 1.0 + 1e-9):
+        labels.add('origin_far')
+    elif np.any(M.o != 0):
+        labels.add('origin_small')
+    if np.any(M.s == 0.0):
+        labels.add('onface')
+
+
+# ----------------------------------------------------------------------------- histories
+#
+# The property holds for a system whatever happened to it (or in the process) before the judged call.  A history is a
+# list of operation dicts interpreted against the real System and the numpy Model side by side:
+#   read     derived quantities are read (scaled positions, reciprocal vectors, volume/lattice parameters, family, ...)
+#   origin   the box origin ALONE is changed by d (relative): 'scaled' = box_set(origin=, scale=True) (atoms follow);
+#            'move' = origin through box_set / Box.set / the origin setter, then atoms.pos += shift in place (same rigid
+#            move, other route); 'wrap' = origin changed, atoms stay where they are and are wrapped into the moved cell
+#   vects    the cell is replaced by f.R.V (uniform scale f, rigid rotation R; family preserved) keeping the relative
+#            coordinates: box_set(vects= / avect=..., [origin=], scale=True), or the vects setter between a scaled read
+#            and a scaled write.  Without origin= Box.set puts the origin at (0,0,0) (documented default)
+#   pos      positions rewritten (same values) through every public setter, or all atoms shifted rigidly by t
+#            (relative, wrapped into the cell by the model's own frac)
+#   call     the operations of this property (and wrap / normalize) called before with other arguments, results dropped
+#   rebuild  the System is re-built from its parts / deep-copied / re-made from scaled atoms; judged call on the new object
+#   other    another System is built and operated on in the same process
+# Levels: 'full' everything; 'noshift' (near-face cells, whose coordinates are constructed) no rigid shifts; 'rigid'
+# (centering: the motif atom has to stay on the lattice site) no shifts and no 'wrap' origins; 'pure' (reduced-precision
+# position arrays, where every write would round again) only operations that write no position; 'noorigin' (primitive cells
+# converted with the default check_basis, generated with the origin at zero: see centering_cases) as 'rigid' without origin changes.
+H_KINDS = {
+    'full': ('read', 'read', 'origin', 'origin', 'origin', 'vects', 'pos', 'pos', 'call', 'call', 'rebuild', 'other'),
+    'pure': ('read', 'read', 'call', 'call', 'rebuild', 'other'),
+}
+H_KINDS['noshift'] = H_KINDS['rigid'] = H_KINDS['full']
+H_KINDS['noorigin'] = ('read', 'read', 'vects', 'vects', 'pos', 'call', 'call', 'rebuild', 'other')
+H_CALLS = ('supersize', 'supersize', 'rotate', 'wrap', 'normalize', 'p2c')
+H_CALLS_PURE = ('supersize', 'supersize', 'rotate', 'normalize', 'p2c', 'supersize')
+H_REBUILD = ('deepcopy', 'system', 'scaled', 'newbox', 'safecopy')
+H_REBUILD_PURE = ('deepcopy', 'system', 'newbox')
+H_POS = ('rewrite_scaled', 'rewrite_view', 'rewrite_prop', 'rewrite_attr', 'shift_scaled', 'shift_inplace', 'shift_prop', 'shift_scaled')
+H_TVALS = (0.0, 0.25, 0.5, 1.0 / 3.0)
+H_SCALES = (0.5, 0.8, 1.25, 2.0, 1.0, 0.937)
+
+
+def decode_op(b, level):
+    """6 bytes -> one operation dict (JSON-able)"""
+    kinds = H_KINDS[level]
+    kind = kinds[b[0] % len(kinds)]
+    if kind in ('read', 'other'):
+        return {'op': kind, 'k': b[1]}
+    if kind == 'call':
+        calls = H_CALLS_PURE if level == 'pure' else H_CALLS
+        return {'op': 'call', 'what': calls[b[1] % len(calls)], 'k': b[2]}
+    if kind == 'rebuild':
+        hows = H_REBUILD_PURE if level == 'pure' else H_REBUILD
+        return {'op': 'rebuild', 'how': hows[b[1] % len(hows)]}
+    d = [0.0 if x % 16 == 0 else round(1.9 * x / 255.0 - 0.95, 3) for x in b[3:6]]
+    if not any(d):
+        d[b[1] % 3] = 0.37
+    if kind == 'origin':
+        how = ('scaled', 'scaled', 'move', 'wrap')[b[1] % 4]
+        if how == 'wrap' and level == 'rigid':
+            how = 'move'
+        if b[2] >= 224:
+            d = [round(20.0 * x, 2) for x in d]          # many cells away
+        return {'op': 'origin', 'how': how, 'via': ('box_set', 'set', 'attr')[b[2] % 3],
+                'form': ('list', 'array', 'tuple')[(b[2] // 3) % 3], 'd': d}
+    if kind == 'vects':
+        rot = None
+        if b[3] % 3 == 0:
+            ax = [b[3] // 3 % 11 - 5, b[4] % 11 - 5, b[5] % 11 - 5]
+            rot = [ax if any(ax) else [0, 0, 1], round(1.0 + 179.0 * b[4] / 255.0, 2)]
+        return {'op': 'vects', 'how': ('vects', 'avect', 'setter')[b[1] % 3], 'f': H_SCALES[b[2] % len(H_SCALES)],
+                'rot': rot, 'd': None if (b[5] % 4 == 0 or level == 'noorigin') else d}
+    how = H_POS[b[1] % (len(H_POS) if level == 'full' else 4)]
+    t = [H_TVALS[x % 6] if x % 6 < 4 else round(x / 256.0, 3) for x in b[3:6]]
+    return {'op': 'pos', 'how': how, 't': t}
+
+
+def _my_frac(x):
+    f = x - np.floor(x)
+    f[f >= 1.0] = 0.0
+    return f
+
+
+def _vec_form(x, form):
+    if form == 'list':
+        return [float(v) for v in x]
+    if form == 'tuple':
+        return tuple(float(v) for v in x)
+    return np.array(x, dtype=float)
+
+
+def _op_read(am, system, k):
+    k = k % 9
+    if k == 0:
+        system.atoms_prop('pos', scale=True)
+    elif k == 1:
+        system.box.reciprocal_vects
+    elif k == 2:
+        b = system.box
+        (b.volume, b.a, b.b, b.c, b.alpha, b.beta, b.gamma)
+    elif k == 3:
+        system.box.identifyfamily()
+    elif k == 4:
+        system.atoms_df(scale=True)
+    elif k == 5:
+        system.box.position_cartesian_to_relative(system.box.origin)
+    elif k == 6:
+        system.box.inside(system.atoms.pos)
+    elif k == 7:
+        system.atoms_prop(scale=True)
+    else:
+        system.dvect(0, system.natoms - 1)
+        system.box.position_relative_to_cartesian([0.5, 0.5, 0.5])
+
+
+def _op_other(am, k):
+    """process history: another system, scaled reads, its origin moved, replicated and re-oriented"""
+    a = 2.0 + (k % 7) * 0.5
+    other = am.System(atoms=am.Atoms(atype=[1, 2], pos=[[0.0, 0.0, 0.0], [0.5 * a, 0.5 * a, 0.5 * a]]),
+                      box=am.Box.cubic(a))
+    other.atoms_prop('pos', scale=True)
+    other.box_set(origin=[0.3 * (k % 5), -1.0, 0.25], scale=bool(k % 2))
+    other.supersize(2, -1, (-1, 1))
+    if k % 3 == 0:
+        other.wrap()
+        other.rotate([[1, 1, 0], [-1, 1, 0], [0, 0, 1]])
+
+
+def _op_call(am, system, what, k, labels):
+    if what == 'supersize':
+        system.supersize(1 + k % 3, -(1 + (k // 3) % 2), (-((k // 6) % 2), 1))
+    elif what == 'rotate':
+        try:
+            system.rotate(CLASSIC[1 + k % (len(CLASSIC) - 1)])
+        except ValueError as e:
+            # judged only when it is the judged call (oracle_rotate keys it there)
+            if 'Filtering failed' not in str(e):
+                raise
+            labels.add('hist_call_refused')
+    elif what == 'wrap':
+        system.wrap()
+    elif what == 'normalize':
+        system.normalize()
+    else:
+        try:
+            system.dump('primitive_to_conventional', setting=('i', 'f', 'c', 'a')[k % 4])
+        except ValueError as e:
+            if 'Filtering failed' not in str(e):
+                raise
+            labels.add('hist_call_refused')
+
+
+def apply_history(am, system, M, hist, labels):
+    """interpret the history against the system and the model; returns the system to judge (a rebuild replaces it)"""
+    import copy
+    for op in hist:
+        k = op['op']
+        labels.add('hist_' + k)
+        if k == 'read':
+            _op_read(am, system, op['k'])
+        elif k == 'other':
+            _op_other(am, op['k'])
+        elif k == 'call':
+            labels.add('hist_call_' + op['what'])
+            _op_call(am, system, op['what'], op['k'], labels)
+        elif k == 'rebuild':
+            how = op['how']
+            if how == 'deepcopy':
+                system = copy.deepcopy(system)
+            elif how == 'system':
+                system = am.System(atoms=system.atoms, box=system.box, pbc=system.pbc, symbols=system.symbols)
+            elif how == 'scaled':
+                system = am.System(atoms=system.atoms_prop(scale=True), box=system.box, scale=True, symbols=system.symbols)
+            elif how == 'newbox':
+                system = am.System(atoms=system.atoms, box=am.Box(vects=system.box.vects, origin=system.box.origin))
+            elif how == 'safecopy':
+                system = am.System(atoms=system.atoms, box=system.box, safecopy=True)
+            else:
+                raise HarnessError('rebuild %r' % (how,))
+        elif k == 'origin':
+            d = np.array(op['d'], dtype=float)
+            o2 = M.o + d @ M.V
+            arg = _vec_form(o2, op['form'])
+            how = op['how']
+            labels.add('hist_origin_' + how)
+            if how == 'scaled':
+                system.box_set(origin=arg, scale=True)
+            else:
+                if op['via'] == 'box_set':
+                    system.box_set(origin=arg)
+                elif op['via'] == 'set':
+                    system.box.set(origin=arg)
+                else:
+                    system.box.origin = arg
+                if how == 'move':
+                    system.atoms.pos += (o2 - M.o)
+                else:
+                    system.wrap()
+                    M.s = _my_frac(M.s - d)
+            M.o = o2
+            M.refresh()
+        elif k == 'vects':
+            V2 = float(op['f']) * M.V
+            if op['rot']:
+                V2 = V2 @ gens.rotation_matrix(*op['rot']).T
+            how = op['how']
+            if how == 'setter':
+                spos = system.atoms_prop('pos', scale=True)
+                system.box.vects = V2.copy()
+                system.atoms_prop('pos', value=spos, scale=True)
+                o2 = M.o
+            else:
+                kw = {}
+                if op['d'] is None:
+                    o2 = np.zeros(3)
+                else:
+                    o2 = np.array(op['d'], dtype=float) @ V2
+                    kw['origin'] = o2.copy()
+                if how == 'vects':
+                    system.box_set(vects=V2.copy(), scale=True, **kw)
+                else:
+                    system.box_set(avect=V2[0].copy(), bvect=V2[1].tolist(), cvect=V2[2].copy(), scale=True, **kw)
+            M.V, M.o = V2, o2
+            M.refresh()
+        elif k == 'pos':
+            how = op['how']
+            if how.startswith('shift'):
+                labels.add('hist_pos_shift')
+                M.s = _my_frac(M.s + np.array(op['t'], dtype=float))
+            M.refresh()
+            if how in ('rewrite_scaled', 'shift_scaled'):
+                system.atoms_prop('pos', value=M.s.copy(), scale=True)
+            elif how == 'rewrite_view':
+                system.atoms.view['pos'] = M.pos.tolist()
+            elif how in ('rewrite_prop', 'shift_prop'):
+                system.atoms_prop(key='pos', value=M.pos.copy())
+            elif how == 'rewrite_attr':
+                system.atoms.pos = M.pos.copy()
+            elif how == 'shift_inplace':
+                system.atoms.pos[:] = M.pos
+            else:
+                raise HarnessError('pos op %r' % (how,))
+        else:
+            raise HarnessError('history op %r' % (k,))
+    if hist:
+        labels.add('hist')
+    return system
+
+
+def prepare(am, case, labels):
+    """build the unit cell of a case in its input form, run its history; -> system, Model, snapshot (after the history)"""
+    system, M = build_system(am, case['ucell'], case.get('forms'), labels)
+    system = apply_history(am, system, M, case.get('hist') or [], labels)
+    model_labels(M, labels)
+    return system, M, snapshot(system)
 
 
 def snapshot(system):
@@ -185,6 +596,46 @@ _seed = st.integers(0, 10 ** 6)
 NEAR_T = (1e-4, 1e-5, 1e-6, 1e-7)
 NEAR_F = (0.5, 0.99, 1.005, 1.05, 2.0, 0.99, 1.005)
 _near = st.lists(st.integers(0, 2 * 3 * 4 * 7 - 1), min_size=1, max_size=2)
+
+
+WHOLE_FAMILIES = ('cubic', 'tetragonal', 'orthorhombic')
+WHOLE_ABC = {'cubic': [(4, 4, 4), (8, 8, 8), (12, 12, 12)],
+             'tetragonal': [(4, 4, 8), (8, 8, 4), (4, 4, 12), (12, 12, 8)],
+             'orthorhombic': [(4, 8, 12), (8, 4, 12), (12, 8, 4), (4, 12, 8)]}
+
+# input forms and histories (see build_system / apply_history): one list of bytes each, decoded without further draws
+_fbytes = st.lists(_byte, min_size=4, max_size=4)
+_hlen = st.sampled_from([0, 0, 0, 1, 1, 2, 2, 3])
+_hbytes = [None] + [st.lists(_byte, min_size=6 * n, max_size=6 * n) for n in range(1, 4)]
+POS_FORMS = ('float',) * 7 + ('list', 'list', 'fortran', 'strided', 'readonly', 'f32', 'f16', 'f16', 'f32')
+POS_FORMS_F64 = ('float',) * 6 + ('list', 'list', 'fortran', 'strided', 'readonly')
+BOX_FORMS = ('vects',) * 6 + ('list', 'tuple', 'avects', 'fortran', 'readonly', 'setters', 'set')
+SYS_FORMS = ('plain',) * 5 + ('scaled', 'scaled', 'safecopy')
+
+
+def forms_and_history(draw, u, level='full', lowprec=True):
+    """-> (forms dict or None, history list): the input form of the unit cell u and what happens to the system before
+    the judged call (a plain function of the caller's draw).  About a third of the cases keep the plain float64 forms,
+    about 3 in 8 have no history."""
+    fb = draw(_fbytes)
+    if u.get('whole'):
+        forms = {'pos': INTPOS[fb[0] % 2] if fb[0] % 8 else 'float', 'box': ('vects', 'intlist', 'list')[fb[1] % 3],
+                 'sys': 'safecopy' if fb[2] % 8 == 0 else 'plain'}
+    elif fb[3] % 3 == 0:
+        forms = None
+    else:
+        pf = POS_FORMS if lowprec else POS_FORMS_F64
+        forms = {'pos': pf[fb[0] % len(pf)], 'box': BOX_FORMS[fb[1] % len(BOX_FORMS)], 'sys': SYS_FORMS[fb[2] % len(SYS_FORMS)]}
+    if forms and (forms['pos'] in LOWPREC or forms['pos'] == 'readonly'):
+        # every position write would round again (reduced precision) / Atoms shares the caller's array unless
+        # safecopy=True (documented), so a read-only array cannot be written in place: histories that write no position
+        level = 'pure'
+    n = draw(_hlen)
+    hist = []
+    if n:
+        hb = draw(_hbytes[n])
+        hist = [decode_op(hb[6 * i:6 * i + 6], level) for i in range(n)]
+    return forms, hist
 
 
 def _jit(seed, i):
@@ -239,12 +690,30 @@ def _family_abc(fam, lat, ang):
 
 
 @st.composite
-def ucells(draw, family=None, far_origin=True, allow_lh=True, nearface=None, max_atoms=5, origin=True):
+def ucells(draw, family=None, far_origin=True, allow_lh=True, nearface=None, max_atoms=5, origin=True, whole=False):
     """nearface: None, or an integer 3x3 matrix U: the atoms are then drawn in the relative coordinates s' of the
     cell U.vects with one or two coordinates each a tolerance-ladder distance from a face of *that* cell, and
-    converted to the unit cell (s = frac(s'.U))"""
+    converted to the unit cell (s = frac(s'.U)).
+    whole: a cubic / tetragonal / orthorhombic cell in standard orientation whose lattice parameters (4, 8, 12), origin
+    and Cartesian atom positions (relative coordinates in quarters) are all whole numbers, so that they can be handed
+    over as integer arrays / lists of Python ints"""
     hd = draw(_hdr)
     sd = draw(_seed)
+    if whole:
+        fam = WHOLE_FAMILIES[hd[13] % 3]
+        abc = [float(x) for x in WHOLE_ABC[fam][hd[0] % len(WHOLE_ABC[fam])]] + [90.0, 90.0, 90.0]
+        n = min(NATOMS[hd[12] % 10], max_atoms)
+        cs = draw(_coords[n])
+        atoms = [[(cs[3 * i + c] % 4) / 4.0 for c in range(3)] for i in range(n)]
+        atoms = [atoms[i] for i in dedupe(atoms)]
+        orel = [0.0, 0.0, 0.0]
+        if origin and hd[9] % 10 >= 5:
+            orel = [float(hd[6 + i] % 7 - 3) for i in range(3)] if (far_origin and hd[9] % 10 >= 8) else \
+                   [float(hd[6 + i] % 3 - 1) for i in range(3)]
+        return {'family': fam, 'abc': abc, 'rot': None, 'lh': False, 'orel': orel, 'atoms': atoms,
+                'types': [1 + int(3 * _jit(sd, 200 + i)) % 3 for i in range(len(atoms))],
+                'vec': [[round(10.0 * _jit(sd, 300 + 3 * i + c) - 5.0, 3) for c in range(3)] for i in range(len(atoms))],
+                'whole': True}
     fam = family or FAMILIES[hd[13] % len(FAMILIES)]
     d_origin, d_rot, d_lh, d_n = hd[9] % 10, hd[10] % 10, hd[11] % 10, hd[12] % 10
     abc = _family_abc(fam, [_u01(hd[i], sd, i) for i in range(3)], [_u01(hd[3 + i], sd, 3 + i) for i in range(3)])
@@ -368,12 +837,12 @@ def match_tol(*arrays):
 # ----------------------------------------------------------------------------- supersize
 
 KMAP = (2, 1, 3, 1, 2, 4, 5, 6)          # byte % 8 -> multiplier (Hypothesis over-produces the minimal draw: make it 2, not 1)
-_kind = st.sampled_from(['pos', 'pos', 'neg', 'two', 'two', 'tuple_pos', 'tuple_neg', 'np'])
+_kind = st.sampled_from(['pos', 'pos', 'neg', 'two', 'two', 'tuple_pos', 'tuple_neg', 'np', 'np32', 'nptuple'])
 
 
 @st.composite
 def supersize_cases(draw):
-    u = draw(ucells(far_origin=True))
+    u = draw(ucells(far_origin=True, whole=draw(_int10) == 0))
     ks = [KMAP[draw(_byte) % 8] for _ in range(3)]
     while ks[0] * ks[1] * ks[2] > 60:
         i = ks.index(max(ks))
@@ -386,43 +855,52 @@ def supersize_cases(draw):
             sizes.append({'f': 'int', 'v': k})
         elif kind == 'neg':
             sizes.append({'f': 'int', 'v': -k})
-        elif kind == 'np':
-            sizes.append({'f': 'np', 'v': k if r % 2 else -k})
+        elif kind in ('np', 'np32'):
+            sizes.append({'f': kind, 'v': k if r % 2 else -k})
         elif kind == 'tuple_pos':
             sizes.append({'f': 'tuple', 'v': [0, k]})
         elif kind == 'tuple_neg':
             sizes.append({'f': 'tuple', 'v': [-k, 0]})
         else:
             j = 1 + r % (k - 1) if k > 1 else r % 2
-            sizes.append({'f': 'tuple', 'v': [-j, k - j]})
-    return {'ucell': u, 'sizes': sizes}
+            sizes.append({'f': 'nptuple' if kind == 'nptuple' else 'tuple', 'v': [-j, k - j]})
+    forms, hist = forms_and_history(draw, u)
+    return {'ucell': u, 'sizes': sizes, 'forms': forms, 'hist': hist}
 
 
 def _size_arg(sz):
+    """the multiplier in its documented form ("int or tuple of int"; numpy integers are accepted as ints)"""
     if sz['f'] == 'int':
         return int(sz['v']), (min(sz['v'], 0), max(sz['v'], 0))
     if sz['f'] == 'np':
         return np.int64(sz['v']), (min(sz['v'], 0), max(sz['v'], 0))
+    if sz['f'] == 'np32':
+        return np.int32(sz['v']), (min(sz['v'], 0), max(sz['v'], 0))
+    if sz['f'] == 'nptuple':
+        return (np.int64(sz['v'][0]), np.int32(sz['v'][1])), (int(sz['v'][0]), int(sz['v'][1]))
     return (int(sz['v'][0]), int(sz['v'][1])), (int(sz['v'][0]), int(sz['v'][1]))
 
 
 def oracle_supersize(case):
     import atomman as am
     u = case['ucell']
-    sys0, V, o, pos0 = build_system(am, u)
-    snap = snapshot(sys0)
     labels = ucell_labels(u)
+    sys0, M, snap = prepare(am, case, labels)
+    V, o, pos0 = M.V, M.o, M.pos
     args, los, ks = [], [], []
     for sz in case['sizes']:
         a, (lo, hi) = _size_arg(sz)
         args.append(a); los.append(lo); ks.append(hi - lo)
-        labels.add('arg_' + sz['f'])
+        labels.add('arg_' + ('np' if sz['f'].startswith('np') else sz['f']))
     n = ks[0] * ks[1] * ks[2]
     res = sys0.supersize(*args)
     what = 'supersize%r' % (tuple(args),)
+    if case.get('hist') or case.get('forms'):
+        what += ' [unit cell given as %r, after the history %r]' % (case.get('forms') or DEFAULT_FORMS, case.get('hist'))
     N = len(pos0)
     require(res.natoms == N * n, lambda: '%s: %d atoms, expected %d x %d' % (what, res.natoms, N, n))
     require_props_present(res, what)
+    require_untouched(sys0, snap, what)
     B = np.asarray(res.box.vects, dtype=float)
     bo = np.asarray(res.box.origin, dtype=float)
     expB = V * np.array(ks, dtype=float)[:, None]
@@ -443,6 +921,12 @@ def oracle_supersize(case):
     rep = cm.compare_crystal(motif, np.asarray(res.atoms.pos, dtype=float), mult=n, newV=B, new_origin=bo)
     rep.problems.extend(unequal_props(res, snap, rep.match.index))
     require(rep.ok, lambda: '%s: not the same crystal: %s' % (what, ' ; '.join(rep.problems)[:1500]))
+    # replication only adds whole lattice vectors to positions that are stored as they were given: the replicas sit on
+    # the original atoms to double precision (worst seen in 3000 cases: 7e-16 L cond), not merely within the matching tolerance
+    ptol = 1e-9 * (tol / 1e-7) * max(1.0, float(np.linalg.cond(V)))
+    require(rep.maxdist <= ptol,
+            lambda: '%s: replicas lie up to %.3g from the original atoms modulo the lattice: positions were not carried in '
+                    'double precision (bound %.3g; result pos dtype %s)' % (what, rep.maxdist, ptol, np.asarray(res.atoms.pos).dtype))
     if n > 1:
         labels.add('replicated')
     neg = any(lo < 0 for lo in los)
@@ -491,7 +975,6 @@ _mkind = st.sampled_from(['rand'] * 7 + ['rand4'] * 2 + ['classic', 'signperm', 
 _signperm = st.sampled_from(SIGNPERMS)
 _classic = st.sampled_from(CLASSIC)
 _diag = st.lists(st.sampled_from([-3, -2, -1, 1, 2, 3]), min_size=3, max_size=3)
-_form = st.sampled_from(['list', 'list', 'array', 'float'])
 
 
 def _valid(M, maxdet=24):
@@ -531,47 +1014,106 @@ def hex_matrices(draw):
     return [[r[0], r[1], -(r[0] + r[1]), r[2]] for r in M]
 
 
+_uform = st.sampled_from(['list', 'list', 'array', 'float', 'float', 'tuple', 'fortran', 'readonly', 'int32', 'strided', 'npscalars'])
+# rotate(uvws, tol=None, return_transform=False): the documented default of tol written out in the accepted forms
+# ("list or float"), and the call without return_transform
+_ropt = st.sampled_from([None] * 6 + ['tol_list', 'tol_tuple', 'tol_array', 'no_transform', 'no_transform', 'tol_list_no_transform'])
+TOL_LADDER = (1e-4, 1e-5, 1e-6, 1e-7)
+# Reduced-precision position arrays (float32 / float16) are judged for every vector set but the identity: there rotate()
+# takes its documented "no rotation shortcut" (a deep copy, same dtype) and normalize wraps the atoms in place, so the
+# result is only as precise as the dtype the caller chose (one float16 ulp, 2e-4 at 2 A, seen on the unchanged code).
+# That is the precision of the input, not a defect; every other vector set goes through supersize, whose result is float64.
+IDENTITY = [[1, 0, 0], [0, 1, 0], [0, 0, 1]]
+
+
 @st.composite
 def rotate_cases(draw):
     k = draw(_int10)
     nf = draw(_int10) == 0
+    whole = (not nf) and k >= 2 and draw(_int10) == 0
+    level = 'noshift' if nf else 'full'
     if k <= 1:
         if draw(_int10) < 6:
             H = draw(hex_matrices())
             u = draw(ucells(family='hexagonal', nearface=hex4to3(H) if nf else None))
-            return {'ucell': u, 'uvws': H, 'form': draw(_form)}
+            forms, hist = forms_and_history(draw, u, level, lowprec=not nf and hex4to3(H) != IDENTITY)
+            return {'ucell': u, 'uvws': H, 'form': draw(_uform), 'opt': draw(_ropt), 'forms': forms, 'hist': hist}
         fam = 'hexagonal'
     else:
         fam = None
     M = draw(int_matrices())
-    u = draw(ucells(family=fam, nearface=M if nf else None))
-    return {'ucell': u, 'uvws': M, 'form': draw(_form)}
+    u = draw(ucells(family=fam, nearface=M if nf else None, whole=whole))
+    forms, hist = forms_and_history(draw, u, level, lowprec=not nf and [list(r) for r in M] != IDENTITY)
+    return {'ucell': u, 'uvws': M, 'form': draw(_uform), 'opt': draw(_ropt), 'forms': forms, 'hist': hist}
 
 
 def _uvws_arg(uvws, form):
+    """uvws : "array-like object ... Values must be integers" """
     if form == 'list':
         return [[int(x) for x in r] for r in uvws]
+    if form == 'tuple':
+        return tuple(tuple(int(x) for x in r) for r in uvws)
+    if form == 'npscalars':
+        return [[np.int64(x) for x in r] for r in uvws]
     if form == 'array':
         return np.array(uvws, dtype=np.int64)
+    if form == 'int32':
+        return np.array(uvws, dtype=np.int32)
+    if form == 'fortran':
+        return np.asfortranarray(np.array(uvws, dtype=np.int64))
+    if form == 'readonly':
+        a = np.array(uvws, dtype=np.int64)
+        a.setflags(write=False)
+        return a
+    if form == 'strided':
+        a = np.array(uvws, dtype=np.int64)
+        big = np.full((2 * a.shape[0], 2 * a.shape[1]), 77, dtype=np.int64)
+        big[::2, ::2] = a
+        return big[::2, ::2]
     return np.array(uvws, dtype=float)
+
+
+def _rotate_kwargs(opt):
+    kw = {}
+    if opt and opt.startswith('tol_'):
+        kw['tol'] = {'tol_list': list(TOL_LADDER), 'tol_tuple': tuple(TOL_LADDER), 'tol_array': np.array(TOL_LADDER),
+                     'tol_list_no_transform': list(TOL_LADDER)}[opt]
+    return kw
 
 
 def oracle_rotate(case):
     import atomman as am
     u = case['ucell']
-    sys0, V, o, pos0 = build_system(am, u)
-    snap = snapshot(sys0)
     labels = ucell_labels(u)
+    sys0, M, snap = prepare(am, case, labels)
+    V, o, pos0 = M.V, M.o, M.pos
     uv = case['uvws']
     hex4 = len(uv[0]) == 4
     U = np.array(hex4to3(uv) if hex4 else uv, dtype=int)
     det = idet(U.tolist())
     labels.add('form_' + case['form'])
+    opt = case.get('opt')
+    if opt:
+        labels.update({'opt', 'opt_' + opt})
     if hex4:
         labels.add('hex4')
     what = 'rotate(%r)' % (uv,)
+    if case.get('hist') or case.get('forms') or opt:
+        what += ' [%s; unit cell given as %r, after the history %r]' % (opt or 'return_transform=True', case.get('forms') or DEFAULT_FORMS, case.get('hist'))
+    kw = _rotate_kwargs(opt)
     try:
-        out = sys0.rotate(_uvws_arg(uv, case['form']), return_transform=True)
+        if opt and opt.endswith('no_transform'):
+            # the judged result is the one of the plain call; the rotation comes from a second, identical call
+            res = sys0.rotate(_uvws_arg(uv, case['form']), **kw)
+            require(isinstance(res, am.System), lambda: '%s without return_transform returned %r' % (what, type(res)))
+            out2 = sys0.rotate(_uvws_arg(uv, case['form']), return_transform=True, **kw)
+            require(isinstance(out2, tuple) and len(out2) == 2, lambda: '%s with return_transform=True returned %r' % (what, type(out2)))
+            require(res.natoms == out2[0].natoms and np.array_equal(res.atoms.pos, out2[0].atoms.pos)
+                    and np.array_equal(res.box.vects, out2[0].box.vects) and np.array_equal(res.box.origin, out2[0].box.origin),
+                    lambda: '%s: the system returned without return_transform differs from the one returned with it' % what)
+            out = (res, out2[1])
+        else:
+            out = sys0.rotate(_uvws_arg(uv, case['form']), return_transform=True, **kw)
     except ValueError as e:
         if 'Filtering failed' in str(e):
             key = None
@@ -589,6 +1131,7 @@ def oracle_rotate(case):
     n = abs(det)
     require(res.natoms == N * n, lambda: '%s: %d atoms, expected %d x |det| = %d' % (what, res.natoms, N, N * n))
     require_props_present(res, what)
+    require_untouched(sys0, snap, what)
     B, bo = require_lammps_inside(res, what)
     # new box rows are the rotated integer combinations (third one reversed if they form a left-handed set)
     W = U.astype(float) @ V
@@ -633,6 +1176,7 @@ _rkind = st.sampled_from(['coplanar', 'coplanar', 'parallel', 'zero_row', 'nonin
 _small = st.integers(-2, 2)
 _idx3 = st.integers(0, 2)
 _shapes = st.sampled_from([[2, 3], [3, 2], [3, 5], [4, 3], [9], [1, 3, 3]])
+_rform = st.sampled_from(['list', 'array', 'list', 'array', 'tuple', 'fortran'])
 
 
 @st.composite
@@ -669,7 +1213,8 @@ def refusal_cases(draw):
         flat = [x for r in M for x in r] * 2
         cnt = int(np.prod(shp))
         M = np.array(flat[:cnt]).reshape(shp).tolist()
-    return {'ucell': u, 'kind': kind, 'uvws': M, 'form': draw(st.sampled_from(['list', 'array']))}
+    forms, hist = forms_and_history(draw, u)
+    return {'ucell': u, 'kind': kind, 'uvws': M, 'form': draw(_rform), 'forms': forms, 'hist': hist}
 
 
 REFUSAL_MSG = {
@@ -686,14 +1231,22 @@ REFUSAL_MSG = {
 def oracle_refusal(case):
     import atomman as am
     u = case['ucell']
-    sys0, V, o, pos0 = build_system(am, u)
-    snap = snapshot(sys0)
     labels = ucell_labels(u)
+    sys0, _model, snap = prepare(am, case, labels)
     kind = case['kind']
     labels.add(kind)
     M = case['uvws']
-    arg = M if case['form'] == 'list' else np.array(M)
+    if case['form'] == 'list':
+        arg = M
+    elif case['form'] == 'tuple' and kind != 'shape':
+        arg = tuple(tuple(r) for r in M)
+    elif case['form'] == 'fortran':
+        arg = np.asfortranarray(np.array(M))
+    else:
+        arg = np.array(M)
     what = 'rotate(%r) [%s]' % (M, kind)
+    if case.get('hist') or case.get('forms'):
+        what += ' [unit cell given as %r, after the history %r]' % (case.get('forms') or DEFAULT_FORMS, case.get('hist'))
     try:
         out = sys0.rotate(arg, return_transform=True)
     except ValueError as e:
@@ -734,6 +1287,7 @@ SETTING_FAMILIES = {
 }
 SETTINGS = ('p', 'a', 'b', 'c', 'i', 'f', 't1', 't2')
 _setting = st.sampled_from(SETTINGS + ('i', 'f', 't1', 't2'))
+_entry = st.sampled_from(['method', 'method', 'function'])     # System.dump(style, ...) / atomman.dump(style, system, ...)
 
 
 @st.composite
@@ -768,7 +1322,9 @@ def centering_cases(draw):
             u['types'] = u['types'][:len(keep)]
             u['vec'] = u['vec'][:len(keep)]
         tgen = setting in ('t1', 't2') and basis and draw(_int10) < 4
-    return {'ucell': u, 'setting': setting, 'direction': direction, 'basis': basis, 'generic_t': bool(tgen)}
+    forms, hist = forms_and_history(draw, u, 'noorigin' if (direction == 'p2c2p' and basis) else 'rigid', lowprec=False)
+    return {'ucell': u, 'setting': setting, 'direction': direction, 'basis': basis, 'generic_t': bool(tgen),
+            'entry': draw(_entry), 'forms': forms, 'hist': hist}
 
 
 def _lattice_is_centered(Vp_back, V, setting, what):
@@ -795,14 +1351,20 @@ def _same_params(Va, Vb, what):
     require(np.linalg.det(Va) * np.linalg.det(Vb) > 0, lambda: '%s: handedness of the cell changed' % what)
 
 
-def _c2p(system, setting, basis, **kw):
+def _dump(am, system, style, entry, **args):
+    if entry == 'function':
+        return am.dump(style, system, **args)
+    return system.dump(style, **args)
+
+
+def _c2p(am, system, setting, basis, entry='method', **kw):
     """conventional_to_primitive with the documented refusal turned into None"""
     args = dict(setting=setting, return_transform=True)
     if not basis:
         args['check_basis'] = False
     args.update(kw)
     try:
-        return system.dump('conventional_to_primitive', **args)
+        return _dump(am, system, 'conventional_to_primitive', entry, **args)
     except AssertionError as e:
         if 'atoms found' in str(e) and 'expected' in str(e):
             return None
@@ -815,16 +1377,21 @@ def oracle_centering(case):
     setting = case['setting']
     basis = bool(case['basis'])
     k = len(CENTERING[setting])
-    sys0, V, o, pos0 = build_system(am, u)
-    snap = snapshot(sys0)
     labels = ucell_labels(u) | {'setting_' + setting, case['direction'], 'basis' if basis else 'nobasis'}
+    sys0, M, snap = prepare(am, case, labels)
+    V, o, pos0 = M.V, M.o, M.pos
+    entry = case.get('entry', 'method')
+    labels.add('entry_' + entry)
+    hnote = ''
+    if case.get('hist') or case.get('forms'):
+        hnote = ' [unit cell given as %r, after the history %r]' % (case.get('forms') or DEFAULT_FORMS, case.get('hist'))
     N = len(pos0)
     given = 't' if case.get('generic_t') else setting
     if case.get('generic_t'):
         labels.add('generic_t')
     if case['direction'] == 'c2p2c':
-        what = "dump('conventional_to_primitive', setting=%r%s)" % (given, '' if basis else ', check_basis=False')
-        out = _c2p(sys0, given, basis)
+        what = "dump('conventional_to_primitive', setting=%r%s)%s" % (given, '' if basis else ', check_basis=False', hnote)
+        out = _c2p(am, sys0, given, basis, entry)
         if out is None:
             require_untouched(sys0, snap, what)      # a refusal leaves its operand alone
             return labels | {'refusal'}
@@ -855,7 +1422,8 @@ def oracle_centering(case):
                 lambda: '%s: a conventional atom maps onto a primitive atom of another type' % what)
         # and back
         what2 = what + " -> dump('primitive_to_conventional', setting=%r)" % setting
-        c2, T2 = p.dump('primitive_to_conventional', setting=setting, return_transform=True)
+        require_untouched(sys0, snap, what)
+        c2, T2 = _dump(am, p, 'primitive_to_conventional', entry, setting=setting, return_transform=True)
         T2 = require_rotation(T2, what2)
         require(c2.natoms == N, lambda: '%s: %d atoms, the conventional cell had %d' % (what2, c2.natoms, N))
         require_props_present(c2, what2)
@@ -864,8 +1432,9 @@ def oracle_centering(case):
         T21 = T2 @ T1
         map_back(cm.Motif(V, o, pos0, match_tol(V, o, Bc, c2.atoms.pos)), snap, c2, T21, o, 1, what2, tagdiv=k)
     else:
-        what = "dump('primitive_to_conventional', setting=%r)" % setting
-        c, T1 = sys0.dump('primitive_to_conventional', setting=setting, return_transform=True)
+        what = "dump('primitive_to_conventional', setting=%r)%s" % (setting, hnote)
+        c, T1 = _dump(am, sys0, 'primitive_to_conventional', entry, setting=setting, return_transform=True)
+        require_untouched(sys0, snap, what)
         T1 = require_rotation(T1, what)
         require(c.natoms == N * k, lambda: '%s: %d atoms, expected %d x %d' % (what, c.natoms, N, k))
         require_props_present(c, what)
@@ -880,7 +1449,7 @@ def oracle_centering(case):
         # and back
         extra = {} if not basis else {'check_family': False}
         what2 = what + " -> dump('conventional_to_primitive', setting=%r, %s)" % (given, 'check_family=False' if basis else 'check_basis=False')
-        out = _c2p(c, given, basis, **extra)
+        out = _c2p(am, c, given, basis, entry, **extra)
         if out is None:
             return labels | {'refusal'}
         p2, T2 = out
@@ -896,20 +1465,21 @@ def oracle_centering(case):
 
 
 CLAUSES = [
-    Clause('supersize', oracle_supersize, supersize_cases, quick=8000, thorough=120000,
+    Clause('supersize', oracle_supersize, supersize_cases, quick=7000, thorough=120000,
            min_share={'nt': 0.3, 'onface': 0.3, 'two_sided': 0.12, 'arg_np': 0.08, 'mults_distinct': 0.15, 'origin_small': 0.12,
-                      'multitype': 0.3},
-           desc='supersize: count, box, origin, volume; every replica maps back onto one original atom with its type/tag/vector, each original N times, no coincidences'),
-    Clause('rotate', oracle_rotate, rotate_cases, quick=24000, thorough=300000,
+                      'multitype': 0.3, 'hist': 0.18, 'hist_origin': 0.06, 'forms': 0.28, 'whole': 0.05},
+           desc='supersize: count, box, origin, volume; every replica maps back onto one original atom with its type/tag/vector, each original N times, no coincidences; all input forms, after histories'),
+    Clause('rotate', oracle_rotate, rotate_cases, quick=20000, thorough=300000,
            min_share={'nt': 0.4, 'onface': 0.3, 'detneg': 0.2, 'hex4': 0.05, 'bigdet': 0.2, 'nearface': 0.05,
-                      'origin_small': 0.12, 'lefthanded': 0.03, 'rigid_rot': 0.08, 'multitype': 0.3, 'form_float': 0.06},
-           desc='rotate: proper rotation returned, box = T.(uvws.vects), LAMMPS form, atoms inside, count/volume x|det|, map-back through T with multiplicity |det|'),
-    Clause('refusal', oracle_refusal, refusal_cases, quick=3000, thorough=30000,
-           min_share={'nt': 0.9, 'coplanar': 0.08, 'nonint': 0.09, 'parallel': 0.05, 'shape': 0.05},
-           desc='coplanar / parallel / non-integer / wrong-shape vector sets raise the documented ValueError and leave the system untouched'),
-    Clause('centering', oracle_centering, centering_cases, quick=8000, thorough=100000,
+                      'origin_small': 0.12, 'lefthanded': 0.03, 'rigid_rot': 0.08, 'multitype': 0.3, 'form_float': 0.06,
+                      'hist': 0.18, 'hist_origin': 0.06, 'forms': 0.27, 'whole': 0.04, 'opt': 0.15},
+           desc='rotate: proper rotation returned, box = T.(uvws.vects), LAMMPS form, atoms inside, count/volume x|det|, map-back through T with multiplicity |det|; all input forms and options, after histories'),
+    Clause('refusal', oracle_refusal, refusal_cases, quick=2500, thorough=30000,
+           min_share={'nt': 0.9, 'coplanar': 0.08, 'nonint': 0.09, 'parallel': 0.05, 'shape': 0.05, 'hist': 0.2, 'forms': 0.22},
+           desc='coplanar / parallel / non-integer / wrong-shape vector sets raise the documented ValueError and leave the system untouched (whatever its history)'),
+    Clause('centering', oracle_centering, centering_cases, quick=6500, thorough=100000,
            min_share={'nt': 0.45, 'c2p2c': 0.3, 'p2c2p': 0.15, 'setting_t1': 0.07, 'setting_t2': 0.07, 'setting_f': 0.08,
-                      'nobasis': 0.12, 'multitype': 0.3},
+                      'nobasis': 0.12, 'multitype': 0.3, 'hist': 0.15, 'hist_origin': 0.04, 'forms': 0.24, 'entry_function': 0.09},
            max_share={'refusal': 0.05},
-           desc='conventional<->primitive conversions for p,a,b,c,i,f,t1,t2: same crystal, primitive lattice = centred lattice, N/k atoms, and the two conversions undo one another'),
+           desc='conventional<->primitive conversions for p,a,b,c,i,f,t1,t2: same crystal, primitive lattice = centred lattice, N/k atoms, and the two conversions undo one another; all input forms, both entry points, after histories'),
 ]
